@@ -66,7 +66,11 @@ def z(n: int) -> str:
 
 
 def hx(b: bytes) -> str:
-    return '(unhex "' + b.hex() + '"%string)'
+    ws = []
+    for i in range(0, len(b), 7):
+        ch = b[i:i + 7]
+        ws.append(str(int.from_bytes(ch + b"\0" * (7 - len(ch)), "big")))
+    return "(unp %d [%s]%%uint63)" % (len(b), "; ".join(ws))
 
 
 def zl(xs) -> str:
